@@ -176,7 +176,8 @@ def call(app, env, max_chunks=100000, server_edits_headers=False):
     return c
 
 
-_STATUS_RE = re.compile(r'^[0-9]{3} \S.*$')
+# three digits, one space, a reason phrase without control characters that neither starts nor ends in white space
+_STATUS_RE = re.compile(r'[0-9]{3} [^\s\x00-\x1f\x7f](?:[^\x00-\x1f\x7f]*[^\s\x00-\x1f\x7f])?\Z')
 _TOKEN_RE = re.compile(r"^[!#$%&'*+\-.^_`|~0-9A-Za-z]+$")
 
 
